@@ -10,6 +10,7 @@ import (
 	"github.com/pkg/errors"
 	"github.com/prometheus/common/model"
 	"github.com/prometheus/prometheus/promql"
+	"github.com/prometheus/prometheus/promql/parser"
 	api_v1 "github.com/prometheus/prometheus/web/api/v1"
 	"math"
 	"net/http"
@@ -65,6 +66,10 @@ func (q *PromQueryRangeController) QueryRange(w http.ResponseWriter, r *http.Req
 			w)
 		return
 	}
+	if err = checkSubquerySteps(req.Query, req.End.Sub(req.Start)); err != nil {
+		PromError(400, err.Error(), w)
+		return
+	}
 	rangeQuery, err := q.Api.QueryEngine.NewRangeQuery(q.Storage.SetOidAndDB(internalCtx), nil,
 		req.Query, req.Start, req.End, req.Step)
 	if err != nil {
@@ -84,6 +89,35 @@ func (q *PromQueryRangeController) QueryRange(w http.ResponseWriter, r *http.Req
 		PromError(500, err.Error(), w)
 		return
 	}
+}
+
+// checkSubquerySteps limits a subquery to 11,000 evaluation steps, as the range query itself is limited: the engine
+// reserves one point per step and series before it counts any sample. A subquery is evaluated over the query window
+// plus its own range and the ranges of the subqueries around it. A query that does not parse is left to the engine.
+func checkSubquerySteps(query string, window time.Duration) error {
+	expr, err := parser.ParseExpr(query)
+	if err != nil {
+		return nil
+	}
+	var res error
+	parser.Inspect(expr, func(node parser.Node, path []parser.Node) error {
+		sq, ok := node.(*parser.SubqueryExpr)
+		if !ok || sq.Step <= 0 {
+			return res
+		}
+		span := window + sq.Range
+		for _, p := range path {
+			if outer, ok := p.(*parser.SubqueryExpr); ok {
+				span += outer.Range
+			}
+		}
+		if span < 0 || span/sq.Step > 11000 {
+			res = fmt.Errorf("exceeded maximum resolution of 11,000 points per timeseries in a subquery. " +
+				"Try increasing the subquery resolution ([range:resolution])")
+		}
+		return res
+	})
+	return res
 }
 
 func parseQueryRangePropsV2(r *http.Request) (QueryRangeProps, error) {
